@@ -15,6 +15,9 @@
 #include <mutex>
 #include <random>
 #include <math.h>
+#ifndef _WIN32
+#include <unistd.h>
+#endif
 
 #include <boost/date_time/posix_time/posix_time.hpp>
 #include <boost/regex.hpp>
@@ -45,13 +48,23 @@ const map<string, double> PREFIX_FACTORS = {{"y", 1.0e-24}, {"z", 1.0e-21}, {"a"
 string createId() {
     // the engine is seeded once per process from the system's entropy source; the time alone is
     // the same for all processes that start within one second
-    static boost::mt19937 ran = [] {
+    auto seeded = [] {
         std::random_device rd;
         std::seed_seq seq{rd(), rd(), rd(), rd(), static_cast<unsigned int>(std::time(0))};
         boost::mt19937 engine;
         engine.seed(seq);
         return engine;
-    }();
+    };
+    static boost::mt19937 ran = seeded();
+#ifndef _WIN32
+    // a process created by fork() inherits the engine's state: without a new seed parent and
+    // children would hand out the same ids
+    static pid_t owner = getpid();
+    if (owner != getpid()) {
+        ran = seeded();
+        owner = getpid();
+    }
+#endif
     static boost::uuids::basic_random_generator<boost::mt19937> gen(&ran);
     boost::uuids::uuid u = gen();
     return boost::uuids::to_string(u);
